@@ -213,7 +213,9 @@ def check(ctx):
                 code = k.get("int") if k else None
                 for (a, lab) in main.edge_dominators(ex.bb):
                     o, outcome = main.cond_struct(a, lab)
-                    if o[0] == "call" and o[1].bb == rc.bb and outcome == "Err" and code not in (None, 0):
+                    # the Result examined is this call's — directly, or as one arm of `let outcome = match cmd { A => run_a(..), B => run_b(..) }`
+                    alts = [o] if o[0] == "call" else ([x for x in o[2]] if o[0] == "multi" else [])
+                    if alts and all(x[0] == "call" for x in alts) and any(x[1].bb == rc.bb for x in alts) and outcome == "Err" and code not in (None, 0):
                         found = True
             if found:
                 r2b.ok("main: %s Err => process::exit(non-zero)" % short_path(rc.best))
